@@ -1007,6 +1007,8 @@ def make_scheduler(sp, seed, max_t, sim):
             kw["max_resource_attr"] = MAXATTR
         else:
             kw["max_resource_level"] = max_t
+        if sp.get("support_pause_resume") is False:
+            kw["support_pause_resume"] = False   # non-default: every job is a new trial started from scratch
         return GeometricDifferentialEvolutionHyperbandScheduler(cs, **kw), mra
     if kind == "pbt":
         from syne_tune.optimizer.schedulers.pbt import PopulationBasedTraining
@@ -1466,6 +1468,8 @@ def gen_scheduler(rng, sim):
         sp["reduction_factor"] = rng.choice([2, 3])
         sp["brackets"] = rng.choice([None, 1, 2])
         sp["max_resource_attr"] = rng.random() < 0.4
+        if k == "dehb" and rng.random() < 0.4:
+            sp["support_pause_resume"] = False
     elif k == "pbt":
         sp["population_size"] = rng.choice([2, 3, 4])
         sp["perturbation_interval"] = rng.choice([1, 2, 2, 3])
